@@ -210,6 +210,7 @@ PROPS.update({
 PROPS.update({
     "C04": {
         "coq": "Properties/C04.v",
+        "coq_extra": ["Properties/SrcStep.v"],
         "pinchecks": ENGINE_PINS,
         "gen": "c04",
         "level_text": "Coq theorems over the engine: StoreInv (duplicate-free lists) for every reachable state of every history (c04_inv_run); each model-level "
